@@ -162,3 +162,38 @@ func akeSweepTags(c *Ctx) {
 		}
 	}
 }
+
+// a fragment that is rejected (well-formed tags, a body that does not parse) must not bind a fresh conversation to the
+// instance it claims to come from: afterwards the genuine peer still gets through
+func c15RejectedFragments(c *Ctx) {
+	bodies := []string{"70000,00004,x,", "00001,0000x,x,", "00001,00002", ",,,", "00001,00002,x", "1,2,3"}
+	for _, b := range bodies {
+		for _, rt := range []string{"00000000", "own"} {
+			pols := []int{polV3, polV3}
+			s := newSys(pols, c.R.U64())
+			// party 1 draws its own tag by sending a query answer later; before anything else it is shown the fragment
+			r := rt
+			if rt == "own" {
+				s.Query(2, 1) // makes party 1 draw its tag (D-H Commit)
+				s.dropFrom(1, 0)
+				r = fmt.Sprintf("%08x", otr3.VerifSnapshot(s.ps[1].c).OurTag)
+				s.End(1)
+			}
+			frag := []byte("?OTR|0badc0de|" + r + "," + b)
+			before := c15Bound(s, 1)
+			_, _, err := s.ps[1].c.Receive(frag)
+			after := c15Bound(s, 1)
+			what := fmt.Sprintf("rejected-fragment,body=%q,receiver=%s", b, rt)
+			c.Count("c15:rejected-fragment")
+			c.Rep.Evaluations++
+			if err != nil && before == 0 && after != 0 {
+				c.Violate("bound-by-rejected-message", what, fmt.Sprintf("a fragment that Receive rejected (%v) bound the conversation to instance %#x", err, after), map[string]string{"fragment": string(frag)})
+				continue
+			}
+			s.tick(200)
+			if !s.Handshake(2, 1) {
+				c.Violate("genuine-peer-cut-off", what, "after a rejected fragment claiming another instance the genuine peer can no longer establish a session", map[string]string{"fragment": string(frag)})
+			}
+		}
+	}
+}
